@@ -39,8 +39,8 @@ package nexus
 //@   ensures err != nil ==> isErr(err, ErrVLANExhausted)
 
 //@ loop VLANAllocator.findAvailableCTag#1
-//@   invariant v.config.CTagRange.Start <= cTag
-//@   decreases v.config.CTagRange.End - cTag + 1
+//@   invariant v.config.CTagRange.Start <= c && c <= v.config.CTagRange.End + 1
+//@   decreases v.config.CTagRange.End - c + 1
 
 //@ func (v *VLANAllocator) findAvailable
 //@   requires v.nonnil && v.cfg && v.inner && v.cur
@@ -50,8 +50,8 @@ package nexus
 //@   ensures v.cur
 
 //@ loop VLANAllocator.findAvailable#1
-//@   invariant v.config.STagRange.Start <= sTag && v.cur
-//@   decreases v.config.STagRange.End - sTag + 1
+//@   invariant v.config.STagRange.Start <= s && s <= v.config.STagRange.End + 1 && v.cur
+//@   decreases v.config.STagRange.End - s + 1
 
 //@ loop VLANAllocator.findAvailable#2
 //@   invariant v.config.STagRange.Start <= sTag && sTag <= v.currentSTag && v.cur
@@ -103,7 +103,7 @@ package nexus
 //@ func (v *VLANAllocator) AllocateWithSTag
 //@   ensures err == nil ==> result != nil && nteID in v.allocations && v.allocations[nteID] == result && result.STag == sTag
 //@   ensures forall n string :: n != nteID ==> (n in v.allocations) == locked(n in v.allocations) && v.allocations[n] == locked(v.allocations[n])
-//@   ensures err != nil ==> isErr(err, ErrVLANExhausted) && result == nil
+//@   ensures err != nil ==> result == nil
 //@   ensures err != nil ==> (nteID in v.allocations) == locked(nteID in v.allocations)
 //@   ensures err != nil ==> dom(v.allocations) == locked(dom(v.allocations)) && vals(v.allocations) == locked(vals(v.allocations))
 //@   ensures err != nil ==> forall s uint16, c uint16 :: vlanUsed(v, s, c) == locked(vlanUsed(v, s, c))
@@ -111,8 +111,10 @@ package nexus
 
 // LoadFromStore: the C20 invariants must hold again at Unlock whatever the
 // store returned (the loop invariants are the lock invariants).
+// Existing entries are never touched (keep-the-first): whole-view clause below.
 //@ func (v *VLANAllocator) LoadFromStore
-//@   requires forall i int :: 0 <= i && i < len(ntes) ==> ntes[i] != nil
+//@   ensures forall n string :: locked(n in v.allocations) ==> n in v.allocations && v.allocations[n] == locked(v.allocations[n])
+//@   ensures forall s uint16, c uint16 :: locked(vlanUsed(v, s, c)) ==> vlanUsed(v, s, c) && v.sTagUsage[s][c] == locked(v.sTagUsage[s][c])
 
 //@ loop VLANAllocator.LoadFromStore#1
 //@   invariant v.nonnil && v.cfg && v.cur
@@ -124,3 +126,5 @@ package nexus
 //@   invariant v.fwd
 //@   invariant v.rev
 //@   invariant v.rng
+//@   invariant forall n string :: locked(n in v.allocations) ==> n in v.allocations && v.allocations[n] == locked(v.allocations[n])
+//@   invariant forall s uint16, c uint16 :: locked(vlanUsed(v, s, c)) ==> vlanUsed(v, s, c) && v.sTagUsage[s][c] == locked(v.sTagUsage[s][c])
